@@ -218,6 +218,7 @@ def run_check(pid, tier):
         violations.append(e)
     lines = []
     rc = 0
+    found_violation = False
     if guard_msgs:
         for g in guard_msgs:
             print("CHECKER-ERROR property=%s %s" % (pid, g))
@@ -266,7 +267,7 @@ def run_check(pid, tier):
         else:
             print("VIOLATION property=%s replay=%s no-failing-input-found" % (pid, path))
         print("   failed obligation: %s (%s) solver=%s %s" % (e["name"], e["loc"], f["result"], (f.get("reason") or "")[:200]))
-        rc = max(rc, 1) if rc != 3 else 3
+        found_violation = True
     if not violations:
         for i, v in enumerate(nat_viol):
             path = os.path.join("replays", pid, "native_%d.json" % i)
@@ -274,7 +275,9 @@ def run_check(pid, tier):
                    "input": v, "solver_output": "found by the bounded stand-in on the real code"}
             json.dump(rec, open(os.path.join(OUT, path), "w"), indent=1, default=str)
             print("VIOLATION property=%s replay=%s" % (pid, path))
-            rc = max(rc, 1) if rc != 3 else 3
+            found_violation = True
+    if found_violation:
+        rc = 1  # a violation that was found stands, whatever else went wrong in this run (guard messages are printed above)
     if undecided and rc == 0:
         for q, s in undecided:
             print("UNDECIDED property=%s function=%s status=%s %s" % (pid, q, s[0], s[1]))
